@@ -7,6 +7,10 @@
 //!   c13 gopen text=<hex>   same for groups                                          -> rej-open | ok meta= stored= stored2=
 //!   c13 a2doc|g2doc text=<hex>  ArrayMetadataV2 / GroupMetadataV2 serde only       -> ser=<hex> ser2=<hex|rej> | rej
 //!   c13 v2to3 text=<hex>   ArrayMetadataV2 parsed, array_metadata_v2_to_v3 (default aliases), serialised  -> rej | rej-conv | v3=<hex>
+//!   c13 mopt kind=<a3|a2|g3|g2> ver=<default|v3> alias=<0|1> zarrs=<0|1> enc=<0|1> text=<hex>
+//!                          the document stored (zarr.json / .zarray / .zgroup), opened, `metadata_opt` and `store_metadata_opt` with
+//!                          exactly those options, re-opened, stored again with the same options
+//!                          -> rej-open | ok plug=<A|B|C|x per codec, - if none> mo=<hex> zj=<hex> z2=<hex> zt=<hex> re=<rej | ok zjr=.. z2r=.. ztr=..>
 //!   c13 cfg store=<kind> ; c13 op <mkgroup|mkarray|rmmeta|rmnode|stray|children|paths|objs|tree|exists> ...
 use crate::c08::{make_store, DynStore, StoreCtx};
 use crate::util::*;
@@ -115,6 +119,68 @@ fn exec_mut(m: &BTreeMap<String, String>) -> String {
     }
 }
 
+/// `c13 mopt`: the metadata options of `Array::metadata_opt` / `Group::metadata_opt` (model: lean/ZarrsModel/Model/MetaOpts.lean).
+/// Outcome: `rej-open`, or `ok plug=.. mo=.. zj=.. z2=.. zt=.. re=..` where `plug` has one letter per codec of a V3 array
+/// document (A/B/C = created as array-to-array / array-to-bytes / bytes-to-bytes codec, x = not created), `mo` is what
+/// `metadata_opt` returns (compact JSON), `zj`/`z2`/`zt` are the compact texts under `zarr.json`, `.zarray`|`.zgroup`, `.zattrs`
+/// after `store_metadata_opt` (`-` = key absent), and `re` is `rej` when the node does not re-open, else `ok` with the three
+/// texts after the re-opened handle stored its metadata with the same options.
+fn exec_mopt(m: &BTreeMap<String, String>) -> String {
+    use zarrs::config::MetadataConvertVersion;
+    let kind = m["kind"].as_str();
+    let text = unhex(&m["text"]);
+    let ver = if m["ver"] == "v3" { MetadataConvertVersion::V3 } else { MetadataConvertVersion::Default };
+    let sc = make_store("memory");
+    let store: DynStore = sc.store.clone();
+    let keys = |node: &str, v2: &str, sfx: &str| -> String {
+        let g = |k: &str| match store.get(&key(&format!("{}/{}", node, k))).unwrap() { Some(b) => hex(compact(&b).unwrap_or_else(|| "unparsable".into()).as_bytes()), None => "-".to_string() };
+        format!("zj{s}={} z2{s}={} zt{s}={}", g("zarr.json"), g(v2), g(".zattrs"), s = sfx)
+    };
+    match kind {
+        "a3" | "a2" => {
+            let mut opts = zarrs::array::ArrayMetadataOptions::default()
+                .with_metadata_convert_version(ver)
+                .with_include_zarrs_metadata(m["zarrs"] == "1")
+                .with_convert_aliased_extension_names(m["alias"] == "1");
+            opts.codec_options_mut().set_experimental_codec_store_metadata_if_encode_only(m["enc"] == "1");
+            store.set(&key(if kind == "a3" { "a/zarr.json" } else { "a/.zarray" }), text.clone().into()).unwrap();
+            let a = match Array::open(store.clone(), "/a") { Ok(a) => a, Err(e) => { if std::env::var("VERIF_ERR_MSG").is_ok() { eprintln!("ERR: {}", e); } return "rej-open".into() } };
+            // which codecs of the document the plugins create, and as what
+            let plug = match a.metadata() {
+                ArrayMetadata::V3(md) => {
+                    let aliases = zarrs::config::global_config().codec_aliases_v3().clone();
+                    let s: String = md.codecs.iter().map(|c| match zarrs::array::codec::Codec::from_metadata(c, &aliases) {
+                        Ok(zarrs::array::codec::Codec::ArrayToArray(_)) => 'A', Ok(zarrs::array::codec::Codec::ArrayToBytes(_)) => 'B',
+                        Ok(zarrs::array::codec::Codec::BytesToBytes(_)) => 'C', Err(_) => 'x' }).collect();
+                    if s.is_empty() { "-".to_string() } else { s }
+                }
+                ArrayMetadata::V2(_) => "-".to_string(),
+            };
+            let mo = match a.metadata_opt(&opts) { ArrayMetadata::V3(md) => serde_json::to_string(&md).unwrap(), ArrayMetadata::V2(md) => serde_json::to_string(&md).unwrap() };
+            if a.store_metadata_opt(&opts).is_err() { return "err-store".into(); }
+            let first = keys("a", ".zarray", "");
+            let re = match Array::open(store.clone(), "/a") {
+                Ok(b) => { if b.store_metadata_opt(&opts).is_err() { "err-store".to_string() } else { format!("ok {}", keys("a", ".zarray", "r")) } }
+                Err(e) => { if std::env::var("VERIF_ERR_MSG").is_ok() { eprintln!("ERR: {}", e); } "rej".to_string() }
+            };
+            format!("ok plug={} mo={} {} re={}", plug, hex(mo.as_bytes()), first, re)
+        }
+        _ => {
+            let opts = zarrs::group::GroupMetadataOptions::default().with_metadata_convert_version(ver);
+            store.set(&key(if kind == "g3" { "g/zarr.json" } else { "g/.zgroup" }), text.clone().into()).unwrap();
+            let g = match Group::open(store.clone(), "/g") { Ok(g) => g, Err(_) => return "rej-open".into() };
+            let mo = match g.metadata_opt(&opts) { GroupMetadata::V3(md) => serde_json::to_string(&md).unwrap(), GroupMetadata::V2(md) => serde_json::to_string(&md).unwrap() };
+            if g.store_metadata_opt(&opts).is_err() { return "err-store".into(); }
+            let first = keys("g", ".zgroup", "");
+            let re = match Group::open(store.clone(), "/g") {
+                Ok(h) => { if h.store_metadata_opt(&opts).is_err() { "err-store".to_string() } else { format!("ok {}", keys("g", ".zgroup", "r")) } }
+                Err(_) => "rej".to_string(),
+            };
+            format!("ok plug=- mo={} {} re={}", hex(mo.as_bytes()), first, re)
+        }
+    }
+}
+
 pub fn exec_doc(line: &str) -> String {
     let (v, m) = parse_line(line);
     let verb = v.get(1).map(|s| s.as_str()).unwrap_or("");
@@ -135,6 +201,7 @@ pub fn exec_doc(line: &str) -> String {
             }
         }
         "mut" => exec_mut(&m),
+        "mopt" => exec_mopt(&m),
         "aopen" => {
             let sc = make_store("memory");
             let store: DynStore = sc.store.clone();
@@ -590,6 +657,173 @@ fn generate_v2(rng: &mut Rng, n: usize, out: &mut Vec<String>) {
     }
 }
 
+// ---------------------------------------------------------------- metadata options (model: lean/ZarrsModel/Model/MetaOpts.lean)
+
+/// one of the spellings of a codec name: the identifier, the default name, older aliases
+fn spell(rng: &mut Rng, names: &[&str]) -> String { rng.pick(names).to_string() }
+
+/// a V3 array document whose codec and data type names go through the alias tables
+fn gen_opts_array_doc(rng: &mut Rng) -> String {
+    let rank = rng.range(1, 3) as usize;
+    let shape: Vec<u64> = (0..rank).map(|_| rng.range(1, 6)).collect();
+    let chunk: Vec<u64> = (0..rank).map(|_| rng.range(1, 3)).collect();
+    let list = |v: &[u64]| v.iter().map(|x| x.to_string()).collect::<Vec<_>>().join(",");
+    let dts: [(&str, &str, usize); 10] = [("uint8", "0", 1), ("int16", "-2", 2), ("int32", "7", 4), ("float32", "1.5", 4), ("float64", "\"NaN\"", 8), ("uint64", "0", 8),
+        ("string", "\"\"", 0), ("bytes", "[]", 0), ("binary", "[]", 0), ("r16", "[0,1]", 2)];
+    let (dt, fill, size) = *rng.pick(&dts);
+    let is_float = dt.starts_with("float");
+    let variable = size == 0;
+    let mut a2a: Vec<String> = vec![];
+    if rng.chance(1, 4) { let mut order: Vec<usize> = (0..rank).collect(); if rank == 2 && rng.chance(1, 2) { order.swap(0, 1); }
+        a2a.push(format!("{{\"name\":\"transpose\",\"configuration\":{{\"order\":[{}]}}}}", order.iter().map(|x| x.to_string()).collect::<Vec<_>>().join(","))); }
+    if rng.chance(1, 4) { a2a.push({ let nm = spell(rng, &["squeeze", "zarrs.squeeze"]); meta_forms(rng, &nm, None) }); }
+    if is_float && rng.chance(1, 3) { a2a.push(format!("{{\"name\":{},\"configuration\":{{\"keepbits\":{}}}}}", jstr(&spell(rng, &["bitround", "numcodecs.bitround", "https://codec.zarrs.dev/array_to_bytes/bitround"])), rng.range(1, 9))); }
+    let a2b: String = if variable {
+        match rng.below(3) {
+            0 => { let nm = spell(rng, &["vlen_v2", "zarrs.vlen_v2", "https://codec.zarrs.dev/array_to_bytes/vlen_v2"]); meta_forms(rng, &nm, None) },
+            1 => meta_forms(rng, if dt == "string" { "vlen-utf8" } else { "vlen-bytes" }, None),
+            _ => format!("{{\"name\":{},\"configuration\":{{\"data_codecs\":[{{\"name\":\"bytes\"}}],\"index_codecs\":[{{\"name\":{},\"configuration\":{{\"endian\":\"little\"}}}}],\"index_data_type\":\"uint64\"}}}}",
+                jstr(&spell(rng, &["vlen", "zarrs.vlen", "https://codec.zarrs.dev/array_to_bytes/vlen"])), jstr(&spell(rng, &["bytes", "endian"]))),
+        }
+    } else {
+        match rng.below(8) {
+            0 if dt != "r16" => format!("{{\"name\":{},\"configuration\":{{\"level\":{}}}}}", jstr(&spell(rng, &["pcodec", "numcodecs.pcodec", "https://codec.zarrs.dev/array_to_bytes/pcodec"])), rng.range(0, 9)),
+            1 if dt != "r16" => "{\"name\":\"packbits\"}".to_string(),
+            2 => format!("{{\"name\":\"sharding_indexed\",\"configuration\":{{\"chunk_shape\":[{}],\"codecs\":[{{\"name\":{},\"configuration\":{{\"endian\":\"little\"}}}},{{\"name\":{},\"configuration\":{{\"level\":1}}}}],\"index_codecs\":[{{\"name\":{},\"configuration\":{{\"endian\":\"little\"}}}},\"crc32c\"]}}}}",
+                list(&vec![1u64; rank]), jstr(&spell(rng, &["bytes", "endian"])), jstr(&spell(rng, &["zlib", "numcodecs.zlib"])), jstr(&spell(rng, &["bytes", "endian"]))),
+            3 if size == 1 => { let nm = spell(rng, &["bytes", "endian"]); meta_forms(rng, &nm, None) },
+            _ => format!("{{\"name\":{},\"configuration\":{{\"endian\":\"{}\"}}}}", jstr(&spell(rng, &["bytes", "bytes", "endian"])), rng.pick(&["little", "big"])),
+        }
+    };
+    let mut b2b: Vec<String> = vec![];
+    for _ in 0..rng.below(3) {
+        b2b.push(match rng.below(10) {
+            0 => "{\"name\":\"gzip\",\"configuration\":{\"level\":5}}".to_string(),
+            1 => meta_forms(rng, "crc32c", None),
+            2 => "{\"name\":\"zstd\",\"configuration\":{\"level\":1,\"checksum\":true}}".to_string(),
+            3 => format!("{{\"name\":{},\"configuration\":{{\"level\":{}}}}}", jstr(&spell(rng, &["zlib", "numcodecs.zlib"])), rng.range(0, 9)),
+            4 => format!("{{\"name\":{},\"configuration\":{{\"level\":{}}}}}", jstr(&spell(rng, &["bz2", "numcodecs.bz2", "https://codec.zarrs.dev/bytes_to_bytes/bz2"])), rng.range(1, 9)),
+            5 => { let nm = spell(rng, &["fletcher32", "numcodecs.fletcher32", "https://codec.zarrs.dev/bytes_to_bytes/fletcher32"]); meta_forms(rng, &nm, None) },
+            6 => format!("{{\"name\":{},\"configuration\":{{\"level\":{}}}}}", jstr(&spell(rng, &["gdeflate", "zarrs.gdeflate", "https://codec.zarrs.dev/bytes_to_bytes/gdeflate"])), rng.range(0, 9)),
+            7 => format!("{{\"name\":{},\"configuration\":{{\"elementsize\":{}}}}}", jstr(&spell(rng, &["shuffle", "numcodecs.shuffle"])), rng.pick(&[1u64, 2, 4])),
+            8 => "{\"name\":\"blosc\",\"configuration\":{\"cname\":\"lz4\",\"clevel\":5,\"shuffle\":\"noshuffle\",\"blocksize\":0}}".to_string(),
+            _ => "{\"name\":\"gzip\",\"configuration\":{\"level\":1},\"must_understand\":false}".to_string(),
+        });
+    }
+    let mut codecs: Vec<String> = vec![];
+    codecs.extend(a2a); codecs.push(a2b); codecs.extend(b2b);
+    // codecs that need not be understood: an unknown one (skipped), a known one with a refused configuration (skipped)
+    if rng.chance(1, 5) { let at = rng.below(codecs.len() as u64 + 1) as usize;
+        codecs.insert(at, rng.pick(&["{\"name\":\"unknown_codec\",\"configuration\":{\"a\":1},\"must_understand\":false}", "{\"name\":\"numcodecs.zlib\",\"configuration\":{\"level\":99},\"must_understand\":false}", "{\"name\":\"endian\",\"configuration\":{\"endian\":\"middle\"},\"must_understand\":false}"]).to_string()); }
+    // the list order is not checked by `CodecChain::from_metadata`: sometimes not in canonical order
+    if rng.chance(1, 8) { for i in (1..codecs.len()).rev() { let j = rng.below(i as u64 + 1) as usize; codecs.swap(i, j); } }
+    // rarely a broken chain
+    if rng.chance(1, 25) { codecs.push(rng.pick(&["\"bytes\"", "{\"name\":\"unknown_codec\"}", "{\"name\":\"numcodecs.zlib\",\"configuration\":{\"level\":99}}"]).to_string()); }
+    let mut f: Vec<(String, String)> = vec![
+        ("zarr_format".into(), "3".into()), ("node_type".into(), "\"array\"".into()), ("shape".into(), format!("[{}]", list(&shape))),
+        ("data_type".into(), meta_forms(rng, dt, None)),
+        ("chunk_grid".into(), format!("{{\"name\":\"regular\",\"configuration\":{{\"chunk_shape\":[{}]}}}}", list(&chunk))),
+        ("chunk_key_encoding".into(), rng.pick(&["\"default\"", "{\"name\":\"v2\",\"configuration\":{\"separator\":\".\"}}", "{\"name\":\"default\",\"configuration\":{\"separator\":\"/\"}}"]).to_string()),
+        ("fill_value".into(), fill.to_string()), ("codecs".into(), format!("[{}]", codecs.join(",")))];
+    // attributes: sometimes already holding a `_zarrs` entry (first, in the middle, last)
+    if rng.chance(3, 4) {
+        let a = match rng.below(6) {
+            0 => "{}".to_string(),
+            1 => "{\"_zarrs\":1,\"b\":2}".to_string(),
+            2 => "{\"a\":[1,2],\"_zarrs\":{\"description\":\"old\"},\"z\":null}".to_string(),
+            3 => "{\"k\":\"v\",\"_zarrs\":{\"description\":\"This array was created with zarrs\",\"repository\":\"https://github.com/LDeakin/zarrs\",\"version\":\"0.20.0-dev\"}}".to_string(),
+            _ => rand_obj(rng, 2, true),
+        };
+        f.push(("attributes".into(), a));
+    }
+    if rng.chance(1, 5) { f.push(("storage_transformers".into(), "[]".into())); }
+    if rng.chance(1, 3) { f.push(("dimension_names".into(), format!("[{}]", (0..rank).map(|_| if rng.chance(1, 3) { "null".to_string() } else { jstr(&rand_name(rng)) }).collect::<Vec<_>>().join(",")))); }
+    for _ in 0..rng.below(3) {
+        let k = rng.pick(&["extra", "zzz", "Aux", "é", "0"]).to_string();
+        if f.iter().any(|x| x.0 == k) { continue; }
+        f.push((k, format!("{{\"must_understand\":false,\"v\":{}}}", rand_value(rng, 1))));
+    }
+    if rng.chance(1, 40) { f.push(("needed".into(), "{\"v\":1}".into())); }
+    if rng.chance(1, 3) { for i in (1..f.len()).rev() { let j = rng.below(i as u64 + 1) as usize; f.swap(i, j); } }
+    format!("{{{}}}", f.iter().map(|(k, v)| format!("{}:{}", jstr(k), v)).collect::<Vec<_>>().join(","))
+}
+
+/// a V2 array document zarrs supports, with codec ids that go through the V2 alias table
+fn gen_opts_v2_array_doc(rng: &mut Rng) -> String {
+    let rank = rng.range(1, 3) as usize;
+    let dims = |rng: &mut Rng, lo: u64, hi: u64| format!("[{}]", (0..rank).map(|_| rng.range(lo, hi).to_string()).collect::<Vec<_>>().join(","));
+    let dts: [(&str, &[&str], bool); 14] = [("|u1", &["0", "7"], false), ("|i1", &["-1"], false), ("<i2", &["0"], false), (">i2", &["-2", "5"], false), ("<u4", &["1"], false), (">u4", &["0"], false),
+        ("<f4", &["1.5", "\"NaN\""], true), (">f4", &["0.0"], true), ("<f8", &["\"-Infinity\""], true), (">f8", &["0.0"], true), ("|b1", &["0", "1"], false), ("<i8", &["0"], false), (">u8", &["0"], false), ("|V4", &["\"AAAAAA==\""], false)];
+    let (dt, fills, is_float) = *rng.pick(&dts);
+    let mut f: Vec<(String, String)> = vec![("zarr_format".into(), "2".into()), ("shape".into(), dims(rng, 1, 6)), ("chunks".into(), dims(rng, 1, 3)), ("dtype".into(), jstr(dt))];
+    let compressors = ["null", "{\"id\":\"zlib\",\"level\":1}", "{\"id\":\"gzip\",\"level\":5}", "{\"level\":9,\"id\":\"bz2\"}", "{\"id\":\"https://codec.zarrs.dev/bytes_to_bytes/bz2\",\"level\":4}",
+        "{\"id\":\"blosc\",\"cname\":\"lz4\",\"clevel\":5,\"shuffle\":1,\"blocksize\":0}", "{\"id\":\"zstd\",\"level\":1}", "{\"id\":\"zarrs.gdeflate\",\"level\":4}", "{\"id\":\"gdeflate\",\"level\":2}",
+        "{\"id\":\"https://codec.zarrs.dev/bytes_to_bytes/gdeflate\",\"level\":3}", "{\"id\":\"fletcher32\"}", "{\"id\":\"https://codec.zarrs.dev/bytes_to_bytes/fletcher32\"}", "{\"id\":\"shuffle\",\"elementsize\":4}",
+        "{\"id\":\"pcodec\",\"level\":8}", "{\"id\":\"https://codec.zarrs.dev/array_to_bytes/pcodec\",\"level\":4}", "{\"id\":\"numcodecs.zlib\",\"level\":1}", "{\"id\":\"unknown\",\"z\":1}"];
+    f.push(("compressor".into(), rng.pick(&compressors).to_string()));
+    f.push(("fill_value".into(), rng.pick(fills).to_string()));
+    f.push(("order".into(), rng.pick(&["\"C\"", "\"C\"", "\"F\""]).to_string()));
+    let mut filters: Vec<String> = vec![];
+    if rng.chance(1, 4) { filters.push(rng.pick(&["{\"id\":\"zarrs.squeeze\"}", "{\"id\":\"squeeze\"}"]).to_string()); }
+    if is_float && rng.chance(1, 3) { filters.push(format!("{{\"id\":{},\"keepbits\":3}}", jstr(&spell(rng, &["bitround", "https://codec.zarrs.dev/array_to_bytes/bitround", "numcodecs.bitround"])))); }
+    if rng.chance(1, 6) { filters.push("{\"id\":\"shuffle\",\"elementsize\":2}".to_string()); }
+    f.push(("filters".into(), if filters.is_empty() { rng.pick(&["null", "[]"]).to_string() } else { format!("[{}]", filters.join(",")) }));
+    if rng.chance(1, 2) { f.push(("dimension_separator".into(), rng.pick(&["\".\"", "\"/\""]).to_string())); }
+    if rng.chance(2, 3) { f.push(("attributes".into(), match rng.below(5) { 0 => "{}".to_string(), 1 => "{\"_zarrs\":1,\"b\":2}".to_string(), 2 => "{\"a\":[1,2],\"_zarrs\":{\"description\":\"old\"},\"z\":null}".to_string(), _ => rand_obj(rng, 2, true) })); }
+    for _ in 0..rng.below(3) {
+        let k = rng.pick(&["extra", "zz", "Aux", "é", "0"]).to_string();
+        if f.iter().any(|x| x.0 == k) { continue; }
+        f.push((k, format!("{{\"must_understand\":false,\"v\":{}}}", rand_value(rng, 1))));
+    }
+    if rng.chance(1, 40) { f.push(("needed".into(), "{\"v\":1}".into())); }
+    if rng.chance(1, 3) { for i in (1..f.len()).rev() { let j = rng.below(i as u64 + 1) as usize; f.swap(i, j); } }
+    format!("{{{}}}", f.iter().map(|(k, v)| format!("{}:{}", jstr(k), v)).collect::<Vec<_>>().join(","))
+}
+
+/// `c13 mopt` lines: every document under option settings drawn from all 16 (groups: both versions)
+fn generate_mopt(rng: &mut Rng, n: usize, out: &mut Vec<String>) {
+    let push = |out: &mut Vec<String>, kind: &str, o: u64, text: &str| {
+        out.push(format!("c13 mopt kind={} ver={} alias={} zarrs={} enc={} dup=0 text={}", kind, if o & 8 != 0 { "v3" } else { "default" }, (o >> 2) & 1, (o >> 1) & 1, o & 1, hex(text.as_bytes())));
+    };
+    // a repeated key of a typed field is rejected by serde (the JSON model merges it): flagged for the driver
+    let pushg = |out: &mut Vec<String>, kind: &str, o: u64, g: &Doc| {
+        let typed: &[&str] = if kind == "g3" { &["zarr_format", "node_type", "attributes", "consolidated_metadata"] } else { &["zarr_format", "attributes"] };
+        let dup = typed.iter().any(|k| g.fields.iter().filter(|f| f.0 == *k).count() > 1);
+        out.push(format!("c13 mopt kind={} ver={} alias={} zarrs={} enc={} dup={} text={}", kind, if o & 8 != 0 { "v3" } else { "default" }, (o >> 2) & 1, (o >> 1) & 1, o & 1, dup as u8, hex(g.text().as_bytes())));
+    };
+    // fixed documents under all 16 settings
+    let fixed_a3 = [
+        r#"{"zarr_format":3,"node_type":"array","shape":[4,6],"data_type":"float32","chunk_grid":{"name":"regular","configuration":{"chunk_shape":[2,3]}},"chunk_key_encoding":"default","fill_value":0.0,"codecs":[{"name":"https://codec.zarrs.dev/array_to_bytes/bitround","configuration":{"keepbits":3}},{"name":"endian","configuration":{"endian":"big"}},{"name":"numcodecs.zlib","configuration":{"level":1}},{"name":"https://codec.zarrs.dev/bytes_to_bytes/gdeflate","configuration":{"level":2}}],"attributes":{"a":1,"_zarrs":"old","z":2},"dimension_names":["y",null]}"#,
+        r#"{"zarr_format":3,"node_type":"array","shape":[4],"data_type":"uint8","chunk_grid":{"name":"regular","configuration":{"chunk_shape":[2]}},"chunk_key_encoding":"default","fill_value":0,"codecs":[{"name":"gzip","configuration":{"level":1}},"endian",{"name":"transpose","configuration":{"order":[0]}}]}"#,
+        r#"{"zarr_format":3,"node_type":"array","shape":[4],"data_type":"binary","chunk_grid":{"name":"regular","configuration":{"chunk_shape":[2]}},"chunk_key_encoding":"default","fill_value":[],"codecs":["vlen_v2"]}"#,
+    ];
+    let fixed_a2 = [
+        r#"{"zarr_format":2,"shape":[4,6],"chunks":[2,3],"dtype":">i2","compressor":{"id":"https://codec.zarrs.dev/bytes_to_bytes/gdeflate","level":1},"fill_value":-1,"order":"F","filters":[{"id":"zarrs.squeeze"}],"dimension_separator":"/","attributes":{"title":"demo"}}"#,
+        r#"{"zarr_format":2,"shape":[4],"chunks":[2],"dtype":"<f4","compressor":{"id":"https://codec.zarrs.dev/bytes_to_bytes/bz2","level":5},"fill_value":0,"order":"C","filters":[{"id":"bitround","keepbits":3}]}"#,
+    ];
+    for o in 0..16 { for t in fixed_a3 { push(out, "a3", o, t); } for t in fixed_a2 { push(out, "a2", o, t); } }
+    // data type metadata in its forms: built-in names, `r<bits>`, configurations, `must_understand`
+    let dts: [(&str, &str); 22] = [("\"r+16\"", "[0,1]"), ("\"r12\"", "[0,1]"), ("\"r\"", "[]"), ("\"r016\"", "[0,1]"), ("\"r0\"", "[]"), ("\"r-8\"", "[0]"), ("\"r18446744073709551616\"", "[0]"),
+        ("\"bfloat16\"", "0.0"), ("\"float16\"", "0.0"), ("\"complex128\"", "[0.0,0.0]"), ("\"int8\"", "0"), ("\"uint16\"", "0"), ("\"uint32\"", "0"), ("\"int64\"", "0"), ("\"bool\"", "true"),
+        ("{\"name\":\"uint8\",\"configuration\":{}}", "0"), ("{\"name\":\"uint8\",\"configuration\":{\"a\":1}}", "0"), ("{\"name\":\"uint8\",\"must_understand\":false}", "0"),
+        ("{\"name\":\"binary\",\"configuration\":{}}", "[]"), ("\"Uint8\"", "0"), ("\"uint8 \"", "0"), ("\"R16\"", "[0,1]")];
+    for (i, (dt, fill)) in dts.iter().enumerate() {
+        let t = format!(r#"{{"zarr_format":3,"node_type":"array","shape":[4],"data_type":{},"chunk_grid":{{"name":"regular","configuration":{{"chunk_shape":[2]}}}},"chunk_key_encoding":"default","fill_value":{},"codecs":[{{"name":"endian","configuration":{{"endian":"little"}}}}]}}"#, dt, fill);
+        push(out, "a3", (i as u64 * 5 + 4) % 16, &t);
+    }
+    for i in 0..n {
+        let o = rng.below(16);
+        match i % 8 {
+            0 | 1 | 2 | 3 => { let t = gen_opts_array_doc(rng); push(out, "a3", o, &t); if rng.chance(1, 3) { push(out, "a3", 15 - o, &t); } }
+            4 | 5 | 6 => { let t = gen_opts_v2_array_doc(rng); push(out, "a2", o, &t); if rng.chance(1, 2) { push(out, "a2", o ^ 8, &t); } }
+            _ => {
+                if rng.chance(1, 2) { let g = gen_group_doc(rng); pushg(out, "g3", o, &g); }
+                else { let g = gen_v2_group_doc(rng); pushg(out, "g2", o, &g); pushg(out, "g2", o ^ 8, &g); }
+            }
+        }
+    }
+}
+
 pub fn generate(tier: &str, seed: u64) -> Vec<String> {
     let thorough = tier == "thorough";
     let mut rng = Rng::new(seed ^ 0xC13);
@@ -737,5 +971,8 @@ pub fn generate(tier: &str, seed: u64) -> Vec<String> {
             out.push(l);
         }
     }
+    // the metadata options against the model (own stream: the lines above stay as they were)
+    let mut r4 = Rng::new(seed ^ 0xC13_0B7);
+    generate_mopt(&mut r4, if thorough { 12000 } else { 1400 }, &mut out);
     out
 }
